@@ -34,7 +34,19 @@ pub struct Cex {
     pub actual: String,
 }
 fn report(c: &Cex) {
-    let e = |s: &str| s.replace('\\', "\\\\").replace('"', "\\\"").replace('\n', "\\n");
+    let e = |s: &str| {
+        let mut o = String::new();
+        for ch in s.chars() {
+            match ch {
+                '\\' => o.push_str("\\\\"),
+                '"' => o.push_str("\\\""),
+                '\n' => o.push_str("\\n"),
+                c if (c as u32) < 0x20 => o.push_str(&format!("\\u{:04x}", c as u32)),
+                c => o.push(c),
+            }
+        }
+        o
+    };
     println!(
         "{{\"found\":true,\"domain\":\"{}\",\"input\":\"{}\",\"expected\":\"{}\",\"actual\":\"{}\"}}",
         c.domain,
